@@ -217,7 +217,9 @@ class Ctx:
             print(f"VIOLATION property={self.prop} replay={path}")
             print(f"  key={v.key} count={v.count} slice={v.slice}\n  {v.msg[:600]}")
         if len(unknown) > MAX_VIOLATION_LINES:
-            print(f"  ... {len(unknown) - MAX_VIOLATION_LINES} more distinct finding keys not listed")
+            print(f"  ... {len(unknown) - MAX_VIOLATION_LINES} more distinct finding keys without replay files:")
+            for v in unknown[MAX_VIOLATION_LINES:MAX_VIOLATION_LINES + 400]:
+                print(f"    key={v.key} count={v.count}")
         self.write_evidence(len(unknown))
         wall = time.time() - self.t0
         print(
